@@ -175,6 +175,12 @@ def classify(clause, msg):
     if clause == 'ranges' and msg.startswith('List.start'):
         leader = msg.rsplit(' ', 1)[1].strip("'\"")
         return 'list-marker-without-digits' if leader in ('.', ')') else 'list-start-mismatch'
+    if clause == 'ast':
+        return 'ast-mirror'
+    if clause == 'parent':
+        return 'parent-link'
+    if clause == 'traverse':
+        return 'traverse:' + msg
     return clause + ':' + msg.split(' ')[0]
 
 
